@@ -144,9 +144,12 @@ func H_C09_bess() {
 	qfi := []uint8{9, 5}[vChoose("qfi", 2)] // 9: configured burst minimums; 5: defaults
 	q := qer{qerID: vU32("qer_id"), qosLevel: lvl, qfi: qfi, ulStatus: vU8("ul_gate") & 1, dlStatus: vU8("dl_gate") & 1,
 		ulMbr: vU64("ul_mbr") & 0xffffffffff, dlMbr: vU64("dl_mbr") & 0xffffffffff, ulGbr: vU64("ul_gbr") & 0xffffffffff, dlGbr: vU64("dl_gbr") & 0xffffffffff, fseID: vU64("fseid")}
-	cfg := env.b.qciQosMap[0]
-	if c, ok := env.b.qciQosMap[qfi]; ok {
-		cfg = c
+	// the expected per-QFI minimums come from the CONFIGURATION handed to
+	// readQciQosMap in vNewBess (entries 9 and 7) and the documented built-in
+	// default for everything else - not from the map the code under test built
+	cfg := &QosConfigVal{cbs: 32 * 1514, ebs: 32 * 1514, pbs: 32 * 1514, burstDurationMs: 10, schedulePriority: 7}
+	if qfi == 9 {
+		cfg = &QosConfigVal{cbs: 2048, ebs: 4096, pbs: 8192, burstDurationMs: 20, schedulePriority: 6}
 	}
 	env.b.SendMsgToUPF(upfMsgTypeAdd, PacketForwardingRules{qers: []qer{q}}, PacketForwardingRules{})
 	es := env.srv.qos[mod]
